@@ -1563,3 +1563,52 @@ def clean_cases(req):
     finally:
         shutil.rmtree(root, ignore_errors=True)
     return {'reproduced': False, 'evaluations': n}
+
+
+# -------------------------------------------------------------------------------------------------
+# thorough tier: every template that bears on a property, run on the tree as it is (bounded
+# exploration next to the proofs; never counted as proved)
+def property_templates(pid):
+    T = {
+        'C01': [transparency_cases, failed_reuse_case, version_cases, created_files_search],
+        'C02': [rollback_cases],
+        'C03': [rollback_cases, clean_cases, failed_setup_cases],
+        'C04': [view_cases, transparency_cases, failed_setup_cases],
+        'C05': [effectiveness_cases, failed_reuse_case, version_cases],
+        'C06': [version_cases],
+        'C07': [identity_cases],
+        'C08': [fence_cases, refusal_cases],
+        'C10': [failed_setup_cases, failed_reuse_case, identity_cases],
+        'C11': [aliasing_cases],
+        'C12': [clean_cases],
+        'C13': [comparison_cases],
+        'C14': [failed_setup_cases, failed_reuse_case, rollback_cases],
+        'C15': [refusal_cases],
+        'C16': [rollback_cases, refusal_cases],
+        'C17': [fence_cases],
+        'C18': [],
+    }
+    return T.get(pid, [])
+
+
+def replay_all(req):
+    pid = req.get('property')
+    total, per = 0, {}
+    for t in property_templates(pid):
+        r = t(dict(req, func='', label=''))
+        per[t.__name__] = r.get('evaluations', 0)
+        total += r.get('evaluations', 0) or 0
+        if r.get('reproduced'):
+            r['template'] = t.__name__
+            r['templates_run'] = per
+            return r
+    if pid in ('C18', 'C07', 'C06', 'C11', 'C15'):
+        import replay_json
+        r = replay_json.replay(dict(req, func='json_util.JsonUtil.sanitize'))
+        per['replay_json'] = r.get('evaluations', 0)
+        total += r.get('evaluations', 0) or 0
+        if r.get('reproduced'):
+            r['template'] = 'replay_json'
+            r['templates_run'] = per
+            return r
+    return {'reproduced': False, 'evaluations': total, 'templates_run': per}
